@@ -574,7 +574,11 @@ class ExprMixin:
         a = clamp(lo, z3.IntVal(0))
         b = clamp(hi, n)
         ln = z3.If(b > a, b - a, 0)
-        return Val(t, z3.Extract(s, a, ln) if t != T.STR else z3.SubString(s, a, ln))
+        if t == T.STR:
+            return Val(t, z3.SubString(s, a, ln))
+        from . import models
+
+        return Val(t, models.sub_seq(self, st, s, a, ln))
 
     # ---- lambda / comprehension -------------------------------------------------------
     def e_Lambda(self, node, st):
